@@ -3,7 +3,7 @@
 import json
 import sys
 
-from jsonargparse import Namespace
+from jsonargparse import Namespace, dict_to_namespace, namespace_to_dict
 
 
 def build(v):
@@ -65,6 +65,19 @@ def mutable_ids(o, acc):
     return acc
 
 
+def branch_ids(o, acc):
+    """ids of the Namespace / dict nodes reachable through Namespaces and dicts only (what clone / a copy must not share)"""
+    if isinstance(o, Namespace):
+        acc.add(id(o))
+        for v in vars(o).values():
+            branch_ids(v, acc)
+    elif isinstance(o, dict):
+        acc.add(id(o))
+        for v in o.values():
+            branch_ids(v, acc)
+    return acc
+
+
 def run(ops):
     ns = Namespace()
     steps, stored_ops = [], []
@@ -115,10 +128,29 @@ def run(ops):
             elif kind == "asdict":
                 before = enc(ns)
                 d = ns.as_dict()
-                out = {"val": enc(d)} if enc(ns) == before else {"fail": "as_dict modified the namespace"}
+                d2 = namespace_to_dict(ns)      # documented as a COPY converted into a nested dictionary
+                if enc(ns) != before:
+                    out = {"fail": "as_dict / namespace_to_dict modified the namespace"}
+                elif enc(d2) != enc(d) or type(d2) is not dict:
+                    out = {"fail": "namespace_to_dict differs from as_dict"}
+                elif branch_ids(d2, set()) & branch_ids(ns, set()):
+                    out = {"fail": "namespace_to_dict shares a branch with the namespace"}
+                else:
+                    out = {"val": enc(d)}
             elif kind == "initdict":
                 ns = Namespace(val)
                 out = {"unit": 0}
+            elif kind == "fromdict":
+                ns = dict_to_namespace(val)
+                out = {"unit": 0}
+            elif kind == "getsteps":
+                cur = ns
+                for seg in op["k"].split("."):
+                    cur = cur[seg]
+                out = {"val": enc(cur)}
+            elif kind == "eq":
+                r = [ns == val, val == ns, not (ns != val), not (val != ns)]
+                out = {"bool": bool(r[0])} if all(x is r[0] for x in r) else {"fail": "==, reflected == and != disagree"}
             else:
                 raise SystemExit("unknown op " + kind)
         except SystemExit:
